@@ -640,3 +640,48 @@ pub fn interesting_u32(rng: &mut Rng) -> u32 {
         _ => rng.next_u64() as u32,
     }
 }
+
+// ------------------------------------------------------------------------------------------
+// Child processes that probe stack exhaustion
+// ------------------------------------------------------------------------------------------
+
+#[repr(C)]
+struct RLimit {
+    cur: u64,
+    max: u64,
+}
+const RLIMIT_STACK: i32 = 3;
+/// The main-thread stack the stack-exhaustion findings (C09-n, C10-i, C18) are stated for.
+pub const USUAL_STACK: u64 = 8 << 20;
+
+extern "C" {
+    fn getrlimit(resource: i32, rlim: *mut RLimit) -> i32;
+    fn setrlimit(resource: i32, rlim: *const RLimit) -> i32;
+}
+
+/// The hard limit on the stack size in the environment of the check (`None`: unknown).
+pub fn hard_stack_limit() -> Option<u64> {
+    let mut r = RLimit { cur: 0, max: 0 };
+    if unsafe { getrlimit(RLIMIT_STACK, &mut r) } == 0 {
+        Some(r.max)
+    } else {
+        None
+    }
+}
+
+/// The child's main thread gets the usual 8 MiB whatever `ulimit -s` says where the check runs
+/// (the soft limit at exec time sizes it; capped by the hard limit).
+pub fn pin_child_stack(cmd: &mut std::process::Command) {
+    use std::os::unix::process::CommandExt;
+    unsafe {
+        cmd.pre_exec(|| {
+            let mut r = RLimit { cur: 0, max: 0 };
+            if getrlimit(RLIMIT_STACK, &mut r) == 0 {
+                r.cur = if r.max < USUAL_STACK { r.max } else { USUAL_STACK };
+                setrlimit(RLIMIT_STACK, &r);
+            }
+            Ok(())
+        });
+    }
+}
+
